@@ -1,7 +1,7 @@
 """C04 No task outlives its scope (structured concurrency containment)."""
 import random
 
-from ..faults import sweep
+from ..faults import sweep, iter_actors
 from ..gen_scopes import Gen, structure
 
 ID = "C04"
@@ -76,6 +76,9 @@ def check(rec):
             name = ev[6]
             if any(e[4] == "start" for e in events_of.get(name, ())):
                 bad("refused-payload-ran", "%s was refused by ended scope %s but ran" % (name, ev[5]))
+            if len(ev) > 7 and ev[7] not in (None, "CORO_CLOSED"):
+                bad("refused-payload-not-closed", "%s was refused by ended scope %s but its "
+                    "coroutine was left %s instead of being discarded" % (name, ev[5], ev[7]))
     exits = [ev for ev in rec.trace if ev[4] in ("scope-", "scope!")]
     body_ok = {ev[5] for ev in rec.trace if ev[4] == "scope.body-"}
     is_until = set()
@@ -118,9 +121,17 @@ def check(rec):
                 bad("await-scope-late", "scope %s body ended at t=%r, its awaiter resumed at t=%r"
                     % (ev[5], over[2], resumed[2]))
     # normal exits are complete
+    payload_kids = {spec["name"] for spec in iter_actors(rec.case["scenario"])
+                    if spec.get("payload") is not None}
+    statuses = {}
+    for ev in rec.trace:
+        if ev[4] == "scope.children":
+            statuses.setdefault(ev[5], {}).update({c[0]: c[1] for c in ev[6]})
     for ev in exits:
         label = ev[5]
-        if ev[4] != "scope-" or label not in body_ok or label in is_until:
+        if ev[4] != "scope-" or label not in body_ok:
+            continue
+        if label in is_until and _may_have_fired(rec, label, ev):
             continue
         kids = children.get(label, ())
         failed = [k for k in kids for e in events_of.get(k, ())
@@ -131,7 +142,12 @@ def check(rec):
             if kid in volatile or kid in cancelled:
                 continue
             evs = events_of.get(kid, ())
-            if not any(e[4] == "end" for e in evs):
+            if kid in payload_kids:
+                status = statuses.get(label, {}).get(kid)
+                if status not in (None, "SUCCESS"):
+                    bad("incomplete-child", "scope %s ended normally at t=%r but its child %s (a "
+                        "notification as payload) is %s" % (label, ev[2], kid, status))
+            elif not any(e[4] == "end" for e in evs):
                 last = evs[-1][4:] if evs else "never started"
                 bad("incomplete-child", "scope %s ended normally at t=%r but non-volatile child %s "
                     "did not finish (last: %r)" % (label, ev[2], kid, last))
@@ -146,6 +162,40 @@ def check(rec):
                         "its non-volatile siblings finished (tick %d)"
                         % (kid, label, closing[0][0], last_regular))
     return out
+
+
+def _may_have_fired(rec, label, exit_ev):
+    """Could the notification of until-block `label` have fired by the time the block was left?
+    (Then unfinished children are legitimate; otherwise the block ended like a plain scope.)"""
+    spec = next((node for node in _scope_nodes(rec.case["scenario"]) if node["label"] == label), None)
+    until = (spec or {}).get("until")
+    entry = next((e for e in rec.trace if e[4] == "scope+" and e[5] == label), None)
+    if not isinstance(until, dict) or entry is None:
+        return True
+    kind = until.get("k")
+    try:
+        if kind == "delay":
+            return entry[2] + float(until["d"]) <= exit_ev[2]
+        if kind == "time" and until.get("op") in (">=", "=="):
+            return float(until["t"]) <= exit_ev[2]
+        if kind == "flag":
+            return any(e[4] == "flag_set+" and e[5] == until["n"] and e[0] <= exit_ev[0]
+                       for e in rec.trace) or \
+                bool((rec.case["scenario"].get("resources") or {}).get(until["n"], {}).get("init"))
+    except (TypeError, ValueError, KeyError):
+        return True
+    return True
+
+
+def _scope_nodes(node):
+    if isinstance(node, dict):
+        if node.get("op") == "scope":
+            yield node
+        for value in node.values():
+            yield from _scope_nodes(value)
+    elif isinstance(node, list):
+        for item in node:
+            yield from _scope_nodes(item)
 
 
 def _until_labels(node):
